@@ -66,6 +66,14 @@ def gen_case(rng, tier="quick"):
             m["dkmax"] = 3
         m["system"] = _pick(rng, ["td", "td", "const"])
         m["dissipation"] = rng.random() < 0.6
+        if long_run and rng.random() < 0.4:
+            # long memory in a long run: affordable for pure dephasing
+            # (bond dimensions stay small), and history independence is
+            # all that is judged here
+            m["dkmax"] = _pick(rng, [None, 64, 70, 100])
+            m["coupling"] = "z"
+            m["hx"] = 0.0
+            m["dissipation"] = False
         m["unique"] = rng.random() < 0.25
         m["subdiv"] = _pick(rng, [None, None, 8])
         names = ["hamiltonian"] + (["gamma", "lindblad"]
@@ -74,9 +82,13 @@ def gen_case(rng, tier="quick"):
             m["bath_kind"] = "customsd"
             m["zeta"] = 1.0
         for _ in range(nops):
-            k = _pick(rng, ["compute", "get", "fault", "compute_grid"],
-                      [5, 2, 3, 2])
-            if k == "compute":
+            k = _pick(rng, ["compute", "get", "fault", "compute_grid",
+                            "other_use"], [5, 2, 3, 2, 1])
+            if k == "other_use":
+                # another computation built from the same system and bath
+                # objects, with another time step and start, runs in between
+                ops.append(["other_use", rng.randrange(3), rng.randrange(3)])
+            elif k == "compute":
                 ops.append(["compute", rng.randrange(0, n + 1)])
             elif k == "compute_grid":
                 # a target exactly on the time grid (k * dt)
@@ -103,8 +115,11 @@ def gen_case(rng, tier="quick"):
         m["kappa"] = _r(rng, 0.1, 0.5)
         m["g"] = _r(rng, 0.2, 0.8)
         for _ in range(nops):
-            k = _pick(rng, ["compute", "get", "fault"], [5, 2, 4])
-            if k == "compute":
+            k = _pick(rng, ["compute", "get", "fault", "other_use"],
+                      [5, 2, 4, 1])
+            if k == "other_use":
+                ops.append(["other_use", rng.randrange(3), rng.randrange(3)])
+            elif k == "compute":
                 ops.append(["compute", rng.randrange(0, n + 1)])
             elif k == "get":
                 ops.append(["get"])
@@ -281,8 +296,11 @@ def build_tempo(m, plan):
     pars = oqupy.TempoParameters(dt=dt, epsrel=m["epsrel"], dkmax=m["dkmax"],
                                  add_correlation_time=_act(m),
                                  subdiv_limit=m["subdiv"])
-    return oqupy.Tempo(system, _bath(m, plan), pars, _initial(m), t0,
-                       unique=m["unique"])
+    bath = _bath(m, plan)
+    obj = oqupy.Tempo(system, bath, pars, _initial(m), t0,
+                      unique=m["unique"])
+    obj._dsim_parts = (system, bath)      # for the "other_use" operation
+    return obj
 
 
 def build_mean_field(m, plan):
@@ -319,9 +337,11 @@ def build_mean_field(m, plan):
     pars = oqupy.TempoParameters(dt=dt, epsrel=m["epsrel"], dkmax=m["dkmax"],
                                  add_correlation_time=_act(m),
                                  subdiv_limit=m["subdiv"])
-    return oqupy.MeanFieldTempo(mfs, [_bath(m) for _ in range(m["nsys"])],
-                                pars, [_initial(m)] * m["nsys"],
-                                0.8 + 0.3j, t0, unique=m["unique"])
+    baths = [_bath(m) for _ in range(m["nsys"])]
+    obj = oqupy.MeanFieldTempo(mfs, baths, pars, [_initial(m)] * m["nsys"],
+                               0.8 + 0.3j, t0, unique=m["unique"])
+    obj._dsim_parts = (mfs, baths)
+    return obj
 
 
 _PT_CACHE = {}
@@ -610,6 +630,37 @@ def run_case(case, dec):
             time_tol = 1e-12
             stats["restarts"] += 1
             log.ev("restart", step)
+        elif kind == "other_use":
+            if method not in ("tempo", "mean_field"):
+                continue
+            import oqupy
+            parts = getattr(obj, "_dsim_parts", None)
+            if parts is None:
+                continue
+            dt2 = [0.05, 0.1, 0.25][op[1]]
+            if abs(dt2 - m["dt"]) < 1e-12:
+                dt2 = 0.07
+            t2 = m["start_time"] + [0.0, 0.3, -0.2][op[2]]
+            pars2 = oqupy.TempoParameters(
+                dt=dt2, epsrel=m["epsrel"], dkmax=m["dkmax"],
+                add_correlation_time=_act(m), subdiv_limit=m["subdiv"])
+            try:
+                if method == "tempo":
+                    other = oqupy.Tempo(parts[0], parts[1], pars2,
+                                        _initial(m), t2, unique=m["unique"])
+                else:
+                    other = oqupy.MeanFieldTempo(
+                        parts[0], parts[1], pars2,
+                        [_initial(m)] * m["nsys"], 0.2 - 0.1j, t2,
+                        unique=m["unique"])
+                other.compute(t2 + 2.5 * dt2, progress_type="silent")
+            except InjectedFault:
+                # an armed fault went off in the other computation: it is
+                # spent there
+                pending_fault = pending_fault or False
+            stats["other_uses"] = stats.get("other_uses", 0) + 1
+            log.ev("other_use", op[1], op[2])
+            check_state("other_use")
         elif kind == "compute":
             k = op[1]
             t_target = None
